@@ -10,6 +10,7 @@ bootstrap.ensure()
 
 ID = "C16"
 LEVEL = "exploration"
+TECHNIQUE = "runtime monitoring: Diagnostics verdicts vs executed emptiness with a truthful executor"
 RULE = (
     "seeded random trees in the iteration engine, the SQL engine and across engines, enriched with doomed and "
     "join-identity leaves, empty leaves with loose declared bounds, trivially false predicates (literal and folded), "
